@@ -9,7 +9,7 @@ from ..core.fde import IndexOutOfRange, Obj, Raised, Undecided
 from ..core.findings import Report
 from ..core.loader import Repo
 from .c04 import adjacency, triage
-from .encodings import GRAPHS, Canon, Instance, RefArray, compare
+from .encodings import work_now, GRAPHS, Canon, Instance, RefArray, compare
 from .graphnative import GRAPH
 
 
@@ -200,9 +200,9 @@ def _triage_div(rep: Report, label: str, devs: List[Any]) -> None:
     import time
 
     undecided = None
-    t0 = time.time()
+    t0 = work_now()
     for desc, n, edges, inst, diff, k, allow_empty, roots in devs:
-        if time.time() - t0 > 25:
+        if work_now() - t0 > 25:
             break
         ids = [a for a in inst.arrays if a["user"]][0]["ids"]
         proj = projection(inst, ids, budget_s=3.0)
